@@ -199,6 +199,10 @@ func (rs *RequestServer) Serve() error {
 
 	err := rs.serveLoop(pktChan)
 
+	// the connection is gone: release handlers that wait on their request's context,
+	// or the workers (and with them Serve) would wait for them indefinitely
+	cancel()
+
 	wg.Wait() // wait for all workers to exit
 
 	rs.mu.Lock()
